@@ -59,3 +59,243 @@ package regexp2
 
 // Package-level error values are initialised non-nil at package init and never reassigned (trusted).
 //@ axiom errvals: ErrBacktrackingStackLimit != nil
+
+// ---------------------------------------------------------------------------------------------
+// C08: rune -> byte offset tables (match.go)
+// ---------------------------------------------------------------------------------------------
+
+// UTF-8 width of a rune as counted by the offset tables: non-encodable runes count as U+FFFD (3 bytes).
+//@ spec func RuneWidth(r rune) int = ite(RuneLenSpec(r) < 0, 3, RuneLenSpec(r))
+
+// The table is specified by its recurrence, which determines it uniquely:
+// t[0] = 0, t[k+1] = t[k] + RuneWidth(runes[k]); nil stands for the identity table (all widths 1).
+//@ func runeByteOffsets(runes []rune) (t []int)
+//@   props C08
+//@   ensures[nil]   t == nil ==> forall k int :: 0 <= k && k < len(runes) ==> RuneWidth(runes[k]) == 1
+//@   ensures[len]   t != nil ==> len(t) == len(runes) + 1 && t[0] == 0
+//@   ensures[step]  t != nil ==> forall k int :: 0 <= k && k < len(runes) ==> t[k+1] == t[k] + RuneWidth(runes[k])
+//@   ensures[fresh] t != nil ==> fresh(t)
+//@   loop 0:
+//@     invariant 0 <= i && i <= len(runes)
+//@     invariant byteOffsets == nil ==> bytePos == i && forall k int :: 0 <= k && k < i ==> RuneWidth(runes[k]) == 1
+//@     invariant byteOffsets != nil ==> len(byteOffsets) == len(runes) + 1 && fresh(byteOffsets) && off(byteOffsets) == 0
+//@     invariant byteOffsets != nil && i > 0 ==> byteOffsets[0] == 0 && bytePos == byteOffsets[i-1] + RuneWidth(runes[i-1])
+//@     invariant i == 0 ==> bytePos == 0
+//@     invariant byteOffsets != nil ==> forall k int :: 0 <= k && k < i - 1 ==> byteOffsets[k+1] == byteOffsets[k] + RuneWidth(runes[k])
+//@     decreases len(runes) - i
+//@   loop 1:
+//@     invariant 0 <= i && i < len(runes)
+//@     invariant 0 <= j && j <= i
+//@     invariant bytePos == i
+//@     invariant forall k int :: 0 <= k && k < i ==> RuneWidth(runes[k]) == 1
+//@     invariant len(byteOffsets) == len(runes) + 1 && fresh(byteOffsets) && off(byteOffsets) == 0 && byteOffsets != nil
+//@     invariant forall k int :: 0 <= k && k < j ==> byteOffsets[k] == k
+//@     decreases i - j
+
+// ---------------------------------------------------------------------------------------------
+// C08: capture arrays of a Match (match.go)
+// ---------------------------------------------------------------------------------------------
+
+// Representation invariant of the capture arrays: one (possibly nil) interval array per group, each with room
+// for its matchcount pairs, no two groups sharing a backing array, none sharing with matchcount.
+//@ spec func MatchWF(m *Match) bool = m != nil && len(m.matches) == len(m.matchcount) && len(m.matchcount) >= 1 && off(m.matches) == 0 && off(m.matchcount) == 0 && m.matches[0] != nil &&
+//@    (forall g int :: 0 <= g && g < len(m.matchcount) ==> GroupWF(m, g)) &&
+//@    (forall g int, h int :: 0 <= g && g < h && h < len(m.matchcount) && m.matches[g] != nil ==> ref(m.matches[g]) != ref(m.matches[h]))
+//@ spec func GroupWF(m *Match, g int) bool = 0 <= m.matchcount[g] && off(m.matches[g]) == 0 &&
+//@    (m.matches[g] != nil ==> len(m.matches[g]) >= 2 && 2*m.matchcount[g] <= len(m.matches[g]) && ref(m.matches[g]) != ref(m.matchcount) && allocated(m.matches[g])) &&
+//@    (m.matches[g] == nil ==> m.matchcount[g] == 0)
+
+//@ func (m *Match) addMatch(c int, start int, l int)
+//@   props C08
+//@   requires MatchWF(m) && 0 <= c && c < len(m.matchcount)
+//@   modifies m.matches[*], m.matchcount[*], m.matches[c][*]
+//@   ensures[wf]     MatchWF(m)
+//@   ensures[count]  m.matchcount[c] == old(m.matchcount[c]) + 1
+//@   ensures[pair]   m.matches[c][2*old(m.matchcount[c])] == start && m.matches[c][2*old(m.matchcount[c])+1] == l
+//@   ensures[prefix] forall k int :: 0 <= k && k < 2*old(m.matchcount[c]) ==> m.matches[c][k] == old(m.matches[c][k])
+//@   ensures[others] forall g int :: 0 <= g && g < len(m.matchcount) && g != c ==> m.matchcount[g] == old(m.matchcount[g]) && m.matches[g] == old(m.matches[g])
+//@   ensures[shape]  len(m.matchcount) == old(len(m.matchcount)) && ref(m.matchcount) == old(ref(m.matchcount)) && ref(m.matches) == old(ref(m.matches))
+
+//@ func (m *Match) removeMatch(c int)
+//@   props C08
+//@   requires MatchWF(m) && 0 <= c && c < len(m.matchcount) && m.matchcount[c] > 0
+//@   modifies m.matchcount[*]
+//@   ensures MatchWF(m) && m.matchcount[c] == old(m.matchcount[c]) - 1
+//@   ensures forall g int :: 0 <= g && g < len(m.matchcount) && g != c ==> m.matchcount[g] == old(m.matchcount[g])
+
+//@ func (m *Match) reset(text *matchText, textstart int)
+//@   props C08 C12
+//@   requires m != nil && off(m.matchcount) == 0
+//@   modifies m.text, m.textstart, m.balancing, m.matchcount[*]
+//@   ensures m.text == text && m.textstart == textstart && !m.balancing
+//@   ensures forall g int :: 0 <= g && g < len(m.matchcount) ==> m.matchcount[g] == 0
+//@   loop 0:
+//@     invariant 0 <= i && i <= len(m.matchcount) && m.text == text && m.textstart == textstart
+//@     invariant forall g int :: 0 <= g && g < i ==> m.matchcount[g] == 0
+//@     invariant m.matchcount == old(m.matchcount)
+//@     decreases len(m.matchcount) - i
+
+//@ func setCaptureFields(c *Capture, runeIndex int, runeLength int)
+//@   props C08
+//@   requires c != nil
+//@   modifies c.RuneIndex, c.RuneLength
+//@   ensures c.RuneIndex == runeIndex && c.RuneLength == runeLength
+
+//@ func newCapture(text *matchText, runeIndex int, runeLength int) (c Capture)
+//@   props C08
+//@   ensures c.text == text && c.RuneIndex == runeIndex && c.RuneLength == runeLength
+
+// ---------------------------------------------------------------------------------------------
+// C03 / C07 / C12 / C02: the scan loop (runner.go)
+// ---------------------------------------------------------------------------------------------
+
+// Att(code, text, origin, p): "a fresh attempt of program `code` on `text` at position p, with \G bound to
+// `origin`, succeeds". Uninterpreted: the only facts known about it are the execute contract below (assumed,
+// E1-E3 in DESIGN.md) and the published compile-time facts (Facts*, C04). The input text is assumed immutable
+// while a scan is running.
+//@ ghost func Att(code *syntax.Code, text []rune, origin int, p int) bool
+
+// Timing helpers are outside the claim (C14 n/a): they only touch the deadline.
+//@ func (r *Runner) startTimeoutWatch()
+//@   trusted timing (time source, background clock goroutine) is outside the sequential model
+//@   requires r != nil
+//@   modifies r.deadline
+//@ func (r *Runner) CheckTimeout() (err error)
+//@   trusted timing (time source, background clock goroutine) is outside the sequential model
+//@   pure
+//@   requires r != nil
+
+// The runner's structural invariant between calls (what initMatch establishes and everything preserves).
+//@ spec func RunnerAlloc(r *Runner) bool = r.runcrawl != nil ==> (StackAlloc(r) && StackWithinLimit(r) && r.runtrack != nil && r.runstack != nil && (r.code != nil ==> r.runtrackcount == r.code.TrackCount))
+
+// Contract every execute implementation is assumed to satisfy (E1-E3). p is the attempt position.
+//@ funcspec ExecuteSpec(r *Runner) (err error)
+//@   requires r != nil && r.runmatch != nil && r.code != nil
+//@   requires 0 <= r.Runtextpos && r.Runtextpos <= len(r.Runtext) && r.Runtextend == len(r.Runtext)
+//@   requires[fresh-captures] MatchWF(r.runmatch) && forall g int :: 0 <= g && g < len(r.runmatch.matchcount) ==> r.runmatch.matchcount[g] == 0
+//@   requires[empty-stacks] r.runcrawl != nil && RunnerAlloc(r) && r.Runtrackpos == len(r.runtrack) && r.Runstackpos == len(r.runstack) && r.runcrawlpos == len(r.runcrawl)
+//@   modifies r.Runtextpos, r.Runtrackpos, r.Runstackpos, r.runcrawlpos, r.runtrack, r.runstack, r.runcrawl,
+//@            r.operator, r.codepos, r.rightToLeft, r.caseInsensitive, r.runmatch.balancing,
+//@            r.runmatch.matches[*], r.runmatch.matchcount[*], r.runmatch.matches[0][*]
+//@   ensures[E-inv]  MatchWF(r.runmatch) && RunnerAlloc(r) && r.runcrawl != nil && len(r.runmatch.matchcount) == old(len(r.runmatch.matchcount))
+//@   ensures[E1] err == nil ==> ((r.runmatch.matchcount[0] > 0) == Att(r.code, r.Runtext, r.Runtextstart, old(r.Runtextpos)))
+//@   ensures[E2-ltr] err == nil && r.runmatch.matchcount[0] > 0 && !r.code.RightToLeft ==>
+//@              r.runmatch.matches[0] != nil && r.runmatch.matches[0][0] == old(r.Runtextpos) && r.runmatch.matches[0][1] >= 0 && r.Runtextpos == old(r.Runtextpos) + r.runmatch.matches[0][1] && r.Runtextpos <= len(r.Runtext)
+//@   ensures[E2-rtl] err == nil && r.runmatch.matchcount[0] > 0 && r.code.RightToLeft ==>
+//@              r.runmatch.matches[0] != nil && r.runmatch.matches[0][0] == r.Runtextpos && r.runmatch.matches[0][1] >= 0 && r.Runtextpos + r.runmatch.matches[0][1] == old(r.Runtextpos) && 0 <= r.Runtextpos
+//@   ensures[E3-ltr] err == nil && r.runmatch.matchcount[0] == 0 && !r.code.RightToLeft ==> old(r.Runtextpos) <= r.Runtextpos && r.Runtextpos <= len(r.Runtext) &&
+//@              forall p int :: old(r.Runtextpos) <= p && p <= r.Runtextpos ==> !Att(r.code, r.Runtext, r.Runtextstart, p)
+//@   ensures[E3-rtl] err == nil && r.runmatch.matchcount[0] == 0 && r.code.RightToLeft ==> r.Runtextpos == old(r.Runtextpos)
+//@   ensures[E3-undo] err == nil && r.runmatch.matchcount[0] == 0 ==> forall g int :: 0 <= g && g < len(r.runmatch.matchcount) ==> r.runmatch.matchcount[g] == 0
+
+// Contract of a candidate finder (C03): it may only skip positions at which no attempt can succeed.
+//@ funcspec FindFirstCharSpec(r *Runner) (ok bool)
+//@   requires r != nil && r.code != nil && 0 <= r.Runtextpos && r.Runtextpos <= len(r.Runtext) && r.Runtextend == len(r.Runtext)
+//@   requires 0 <= r.Runtextstart && r.Runtextstart <= len(r.Runtext)
+//@   modifies r.Runtextpos
+//@   ensures[ltr] !r.code.RightToLeft ==> old(r.Runtextpos) <= r.Runtextpos && r.Runtextpos <= len(r.Runtext) &&
+//@              forall p int :: old(r.Runtextpos) <= p && (p < r.Runtextpos || (!ok && p == r.Runtextpos)) ==> !Att(r.code, r.Runtext, r.Runtextstart, p)
+//@   ensures[rtl] r.code.RightToLeft ==> 0 <= r.Runtextpos && r.Runtextpos <= old(r.Runtextpos) &&
+//@              forall p int :: p <= old(r.Runtextpos) && (p > r.Runtextpos || (!ok && p == r.Runtextpos)) ==> !Att(r.code, r.Runtext, r.Runtextstart, p)
+
+// C04 as used by scan: the published minimum length is a lower bound at every matching position.
+//@ spec func FactMinLen(code *syntax.Code, text []rune, origin int) bool = code.FindOptimizations != nil && code.FindOptimizations.MinRequiredLength > 0 ==>
+//@     forall p int :: Att(code, text, origin, p) ==> (code.RightToLeft ==> p >= code.FindOptimizations.MinRequiredLength) && (!code.RightToLeft ==> len(text) - p >= code.FindOptimizations.MinRequiredLength)
+
+// First attempt position of a scan: one past the origin after an empty previous match.
+//@ spec func ScanFrom(rtl bool, textstart int, prevLen int) int = ite(prevLen == 0, ite(rtl, textstart - 1, textstart + 1), textstart)
+
+// Start and length of the match reported by scan: a quick (runner-owned) match is read from its interval array,
+// a detached match from the fields Match.tidy filled in.
+//@ spec func MatchStart(m *Match, quick bool) int = ite(quick, m.matches[0][0], m.RuneIndex)
+//@ spec func MatchLen(m *Match, quick bool) int = ite(quick, m.matches[0][1], m.RuneLength)
+
+//@ func (r *Runner) scan(rt []rune, textInfo *matchText, textstart int, previousMatchLength int, quick bool, timeout time.Duration) (m *Match, err error)
+//@   props C03 C07 C12 C02 C15
+//@   call findFirstChar: spec FindFirstCharSpec
+//@   call execute: spec ExecuteSpec
+//@   requires r != nil && r.re != nil && r.code != nil
+//@   requires 0 <= textstart && textstart <= len(rt)
+//@   requires r.code.RightToLeft == ((r.re.options & RightToLeft) != 0)
+//@   requires RunnerAlloc(r) && (r.runmatch != nil ==> MatchWF(r.runmatch))
+//@   requires r.re.capsize >= 1 && 0 <= r.code.TrackCount
+//@   requires FactMinLen(r.code, rt, textstart)
+//@   modifies r.*, r.runmatch.*, elems(int), elems([]int)
+//@   ensures[state]   r.Runtext == rt && r.Runtextstart == textstart && r.Runtextend == len(rt) && r.code == old(r.code) && r.re == old(r.re)
+//@   ensures[alloc]   RunnerAlloc(r)
+//@   ensures[nomatch-ltr] err == nil && m == nil && !r.code.RightToLeft ==>
+//@              forall p int :: ScanFrom(false, textstart, previousMatchLength) <= p && p <= len(rt) ==> !Att(r.code, rt, textstart, p)
+//@   ensures[nomatch-rtl] err == nil && m == nil && r.code.RightToLeft ==>
+//@              forall p int :: 0 <= p && p <= ScanFrom(true, textstart, previousMatchLength) ==> !Att(r.code, rt, textstart, p)
+//@   ensures[match-ltr] err == nil && m != nil && !r.code.RightToLeft ==> exists q int :: ScanFrom(false, textstart, previousMatchLength) <= q && q <= len(rt) &&
+//@              Att(r.code, rt, textstart, q) && (forall p int :: ScanFrom(false, textstart, previousMatchLength) <= p && p < q ==> !Att(r.code, rt, textstart, p)) &&
+//@              MatchStart(m, quick) == q && MatchLen(m, quick) >= 0 && q + MatchLen(m, quick) <= len(rt) && m.textpos == q + MatchLen(m, quick)
+//@   ensures[match-rtl] err == nil && m != nil && r.code.RightToLeft ==> exists q int :: 0 <= q && q <= ScanFrom(true, textstart, previousMatchLength) &&
+//@              Att(r.code, rt, textstart, q) && (forall p int :: q < p && p <= ScanFrom(true, textstart, previousMatchLength) ==> !Att(r.code, rt, textstart, p)) &&
+//@              MatchStart(m, quick) + MatchLen(m, quick) == q && MatchLen(m, quick) >= 0 && 0 <= MatchStart(m, quick) && m.textpos == MatchStart(m, quick)
+//@   ensures[match-fields] err == nil && m != nil ==> m.textstart == textstart && m.text == textInfo
+//@   ensures[errnil] err != nil ==> m == nil
+//@   loop 0:
+//@     invariant r.Runtext == rt && r.Runtextstart == textstart && r.Runtextend == len(rt) && r.code == old(r.code) && r.re == old(r.re)
+//@     invariant r.runmatch != nil && MatchWF(r.runmatch) && RunnerAlloc(r) && r.runmatch.textstart == textstart && r.runmatch.text == textInfo
+//@     invariant forall g int :: 0 <= g && g < len(r.runmatch.matchcount) ==> r.runmatch.matchcount[g] == 0
+//@     invariant 0 <= r.Runtextpos && r.Runtextpos <= len(rt)
+//@     invariant r.runcrawl != nil && r.Runtrackpos == len(r.runtrack) && r.Runstackpos == len(r.runstack) && r.runcrawlpos == len(r.runcrawl)
+//@     invariant bump == ite(r.code.RightToLeft, -1, 1) && stoppos == ite(r.code.RightToLeft, 0, len(rt))
+//@     invariant minRequiredLength == ite(r.code.FindOptimizations != nil, r.code.FindOptimizations.MinRequiredLength, 0)
+//@     invariant !r.code.RightToLeft ==> ScanFrom(false, textstart, previousMatchLength) <= r.Runtextpos &&
+//@                 forall p int :: ScanFrom(false, textstart, previousMatchLength) <= p && p < r.Runtextpos ==> !Att(r.code, rt, textstart, p)
+//@     invariant r.code.RightToLeft ==> r.Runtextpos <= ScanFrom(true, textstart, previousMatchLength) &&
+//@                 forall p int :: r.Runtextpos < p && p <= ScanFrom(true, textstart, previousMatchLength) ==> !Att(r.code, rt, textstart, p)
+//@     decreases ite(r.code.RightToLeft, r.Runtextpos, len(rt) - r.Runtextpos)
+
+//@ func (r *Runner) initMatch(textInfo *matchText)
+//@   props C12 C13 C08
+//@   requires r != nil && r.re != nil && r.re.capsize >= 1
+//@   requires RunnerAlloc(r) && (r.runmatch != nil ==> MatchWF(r.runmatch))
+//@   requires r.code != nil ==> 0 <= r.code.TrackCount
+//@   modifies r.runmatch, r.Runtrackpos, r.Runstackpos, r.runcrawlpos, r.runtrack, r.runstack, r.runcrawl, r.runtrackcount,
+//@            r.runmatch.text, r.runmatch.textstart, r.runmatch.balancing, r.runmatch.matchcount[*]
+//@   ensures[match] r.runmatch != nil && MatchWF(r.runmatch) && r.runmatch.text == textInfo && r.runmatch.textstart == r.Runtextstart && !r.runmatch.balancing
+//@   ensures[clean] forall g int :: 0 <= g && g < len(r.runmatch.matchcount) ==> r.runmatch.matchcount[g] == 0
+//@   ensures[reuse] old(r.runmatch) != nil ==> r.runmatch == old(r.runmatch)
+//@   ensures[new]   old(r.runmatch) == nil ==> fresh(r.runmatch)
+//@   ensures[alloc] r.runcrawl != nil && RunnerAlloc(r) && (r.code != nil ==> r.runtrackcount == r.code.TrackCount)
+//@   ensures[limit] StackWithinLimit(r)
+//@   ensures[empty] r.Runtrackpos == len(r.runtrack) && r.Runstackpos == len(r.runstack) && r.runcrawlpos == len(r.runcrawl)
+
+//@ func newMatch(regex *Regexp, capcount int, text *matchText, startpos int) (m *Match)
+//@   props C08 C12
+//@   requires regex != nil && capcount >= 1
+//@   ensures fresh(m) && MatchWF(m) && len(m.matchcount) == capcount && m.text == text && m.textstart == startpos && !m.balancing && m.regex == regex
+//@   ensures forall g int :: 0 <= g && g < capcount ==> m.matchcount[g] == 0
+//@   ensures m.sparseCaps == nil && m.otherGroups == nil
+
+//@ func newMatchSparse(regex *Regexp, caps map[int]int, capcount int, text *matchText, startpos int) (m *Match)
+//@   props C08 C12
+//@   requires regex != nil && capcount >= 1
+//@   ensures fresh(m) && MatchWF(m) && len(m.matchcount) == capcount && m.text == text && m.textstart == startpos && !m.balancing && m.regex == regex
+//@   ensures forall g int :: 0 <= g && g < capcount ==> m.matchcount[g] == 0
+//@   ensures m.sparseCaps == caps && m.otherGroups == nil
+
+//@ func (r *Runner) tidyMatch(quick bool) (m *Match)
+//@   props C08 C12 C07
+//@   requires r != nil && (!quick ==> r.runmatch != nil) && (r.runmatch != nil ==> MatchWF(r.runmatch) && r.runmatch.matches[0] != nil)
+//@   modifies r.runmatch, r.runmatch.*, elems(int)
+//@   ensures[same]    m == old(r.runmatch)
+//@   ensures[detach]  !quick ==> r.runmatch == nil
+//@   ensures[keep]    quick ==> r.runmatch == old(r.runmatch)
+//@   ensures[textpos] m != nil ==> m.textpos == r.Runtextpos && m.text == old(r.runmatch.text) && m.textstart == old(r.runmatch.textstart)
+//@   ensures[group0]  m != nil && quick ==> m.matches[0] == old(r.runmatch.matches[0]) && m.matches[0][0] == old(r.runmatch.matches[0][0]) && m.matches[0][1] == old(r.runmatch.matches[0][1])
+//@   ensures[fields]  m != nil && (!quick || old(r.runmatch.matchcount[0]) > 0) ==> m.RuneIndex == old(r.runmatch.matches[0][0]) && m.RuneLength == old(r.runmatch.matches[0][1])
+//@   ensures[wf]      quick && m != nil ==> MatchWF(m) && forall g int :: 0 <= g && g < len(m.matchcount) ==> m.matchcount[g] == old(r.runmatch.matchcount[g])
+
+// Match.tidy: header fields are verified-by-contract users' view. The compaction of balanced captures (three nested
+// loops whose safety rests on the interpreter's balancing discipline) is not verified yet: trusted.
+//@ func (m *Match) tidy(textpos int)
+//@   trusted compaction loops for balanced captures not verified; header-field postconditions transcribed from the first five statements
+//@   requires MatchWF(m)
+//@   modifies m.*, elems(int)
+//@   ensures m.RuneIndex == old(m.matches[0][0]) && m.RuneLength == old(m.matches[0][1]) && m.textpos == textpos && m.capcount == old(m.matchcount[0])
+//@   ensures !m.balancing && m.text == old(m.text) && m.textstart == old(m.textstart) && m.regex == old(m.regex) && m.matches == old(m.matches) && m.matchcount == old(m.matchcount)
+//@   ensures len(m.Captures) == 1 && m.Captures[0].RuneIndex == m.RuneIndex && m.Captures[0].RuneLength == m.RuneLength && m.Captures[0].text == m.text
